@@ -1,4 +1,5 @@
 import ComposeVerif.Model.Paths
+import ComposeVerif.Model.PathsOrigin
 /-!
 # `utils.ResolveSymbolicLink` over a finite link table  (property C12, develop.watch paths)
 
@@ -12,6 +13,10 @@ symbolic link (a directory, a file, or nothing at all).
                 once per component of the original path (`for range strings.Split(path, "/")`); stop early when nothing
                 is found or the replacement changes nothing
 * `resolveSymOnce`  the function before the repair (first link only) — kept for `Neg/C12.lean`
+* `resolveStr`  `ResolveSymbolicLink` on strings (round 5): a **relative** path is returned as it is (`getSymbolinkLink`
+                finds no link in a path that is not anchored — before the round-5 repair its components were looked up
+                from the working directory of the process); an absolute path is resolved on its components.
+                This is the function the parameter `Cfg.sym` of `Model/Paths.lean` stands for (`cfgOf`).
 -/
 namespace CV.Paths.Sym
 
@@ -63,5 +68,19 @@ def ofTable (tab : List (P × Option P)) : FS := fun p =>
   match tab.find? (fun e => e.1 = p) with
   | some e => some e.2
   | none => none
+
+/-- `utils.ResolveSymbolicLink(path)` on strings; `none` = error.  (An absolute path that is not clean — only a watch path
+written absolute with `.`, `..`, `//` — is handled through its cleaned components here; the real function replaces a link
+only when its clean spelling is a leading component of the path as written and otherwise leaves the path alone.  Those
+inputs are outside the correspondence streams and checked by an oracle only, see design/C12.md "Not proved".) -/
+def resolveStr (fs : FS) (s : Str) : Option Str :=
+  if isAbs s then
+    match resolveSym fs (comps s) with
+    | .ok r => some ('/' :: joinSlash r)
+    | .err => none
+  else some s
+
+/-- the resolver configuration whose symbolic-link resolution is the link-table model -/
+def cfgOf (fs : FS) (wd : Str) (home : Option Str) : Cfg := ⟨wd, home, fun _ => false, resolveStr fs⟩
 
 end CV.Paths.Sym
